@@ -149,6 +149,16 @@ class Broker:
             * trade.contract.multiplier
             * trade.contract.margin_requirement
         )
+        # The whole position is re-based to the acquisition price below, so
+        # settle the variation margin of the quantity held so far from its
+        # last marking-to-market price up to the acquisition price. Otherwise
+        # the bid-ask spread is charged again on the quantity already held.
+        quantity_held = self._holdings_quantity[trade.contract]
+        last_price = self._last_marking_to_market_price.get(trade.contract)
+        if quantity_held != 0 and last_price is not None and trade.contract.margin_requirement != 0:
+            self._holdings_margins[trade.contract] += (
+                quantity_held * trade.contract.multiplier * (trade.acq_price - last_price)
+            )
         margin_actual = self._holdings_margins[trade.contract]
         margin_diff = margin_expected - margin_actual
 
